@@ -173,6 +173,9 @@ class Ext:
 
 
 STEP_BUDGET = 400_000
+PATH_SECONDS = 6
+EXPLORE_SECONDS = 8
+import time as _time
 
 
 class StepBudget(Unsupported):
@@ -358,7 +361,10 @@ class Interp:
     def explore(self, thunk):
         results = []
         self.trail = []
+        t0 = _time.time()
         while True:
+            if _time.time() - t0 > EXPLORE_SECONDS:
+                raise StepBudget(f"the exploration of one rule instance has forked into more than {len(results)} paths in {EXPLORE_SECONDS} s (a loop that forks on every iteration)")
             self._reset_path()
             try:
                 out = Path("return", thunk(), self.effects, None, None)
@@ -392,6 +398,7 @@ class Interp:
         self.mod_loading = set()
         self.depth = 0
         self.steps = 0
+        self.path_t0 = _time.time()
 
     def choose(self, key):
         if self.mod_loading and self.persist_modules:
@@ -628,6 +635,8 @@ class Interp:
 
     def exec(self, s, env, mod):
         self.steps += 1
+        if self.steps % 2000 == 0 and _time.time() - self.path_t0 > PATH_SECONDS:
+            raise StepBudget(f"one abstract path has been running for more than {PATH_SECONDS} s (the slowest path of the unchanged tree takes about 0.1 s)")
         if self.steps > STEP_BUDGET:
             # the largest path of the unchanged tree takes about 20 000 steps
             raise StepBudget(f"step budget exhausted ({STEP_BUDGET} statements on one path)")
